@@ -21,6 +21,7 @@ package common
 import (
 	"encoding/binary"
 	"fmt"
+	"math"
 	"strings"
 	"sync"
 
@@ -345,6 +346,22 @@ func (bA *BitArray) ToProto() *kprotobits.BitArray {
 		Bits:  int64(bA.Bits),
 		Elems: bA.Elems,
 	}
+}
+
+// ValidateBasic checks that a bit array received from a peer is internally consistent:
+// a sane number of bits and exactly the number of words that many bits need.
+// (FromProto copies Bits and Elems independently.)
+func (bA *BitArray) ValidateBasic() error {
+	if bA == nil {
+		return nil
+	}
+	if bA.Bits > math.MaxInt32 {
+		return fmt.Errorf("bit array has too many bits: %d", bA.Bits)
+	}
+	if expected := (int(bA.Bits) + 63) / 64; len(bA.Elems) != expected {
+		return fmt.Errorf("mismatch between bits and elems: %d bits need %d elems, got %d", bA.Bits, expected, len(bA.Elems))
+	}
+	return nil
 }
 
 // FromProto sets a protobuf BitArray to the given pointer.
